@@ -223,7 +223,13 @@ func (h *handler) serve(clientCtx context.Context) error {
 			for {
 				select {
 				case args := <-h.unaryRpcChan:
-					h.writeChan <- h.processUnaryRpc(clientCtx, args.info, args.md, args.rpc)
+					resp := h.processUnaryRpc(clientCtx, args.info, args.md, args.rpc)
+					select {
+					case h.writeChan <- resp:
+					case <-h.ctx.Done():
+						// The writer has gone with the connection.
+						return
+					}
 				case <-unaryRpcCtx.Done():
 					return
 				}
@@ -308,6 +314,11 @@ func (h *handler) processUnaryRpc(
 		log.Panic().Err(err).Msg("Server: failed to get context from headers")
 	}
 	defer cancel()
+
+	// The handler's context ends with the connection (read or write failure,
+	// Stop), like those of streaming handlers.
+	stop := context.AfterFunc(h.ctx, cancel)
+	defer stop()
 
 	var appErr error
 	fullMethod := fmt.Sprintf("/%s/%s", info.name, md.MethodName)
